@@ -201,7 +201,8 @@ CLAIMED = {
     "C18": entry(
         "in every state reachable through the public API the value stack holds at most 65535 entries and its length field is exact (65536 only at the moment "
         "a push reports OUT OF MEMORY); the variable pool never exceeds 65536 entries, storing 0 or \"\" frees the slot; the code and DATA pools refuse the "
-        "65536th entry; SWAP leaves exactly two values (Props/C18.v, Proofs/StackBound.v).",
+        "65536th entry; SWAP leaves exactly two values; for compiled programs of LET, PRINT, GOTO, ON..GOTO and END every completed statement leaves the value "
+        "stack exactly as long as it found it (from the C01 simulation) (Props/C18.v, Proofs/StackBound.v, Flow3.v).",
         "every statement kind 70000 times in a loop (crate) and 2500 times (model and crate); GOSUB / FN recursion, abandoned frames, 65537 variables / "
         "DATA constants / instructions must end in OUT OF MEMORY with the session usable; zeroing at the pool limit (also through converting assignments) "
         "must free slots.",
